@@ -16,6 +16,9 @@ McCfgs ==
     {c \in AllCfgs : c.ma \in {1, 8} /\ c.mcs = 0 /\ c.hs = 32 /\ c.extra = 0 /\ ~c.skew /\ c.ga}
     \cup {c \in AllCfgs : c.ma = 4 /\ c.mcs = 0 /\ c.hs = 48 /\ c.extra = 40 /\ c.skew /\ ~c.ga /\ c.dealloc /\ c.shrinks}
 
+\* configurations of the reset-loop liveness check: both directions, three header sizes, over-grant, both minimum chunk sizes
+LoopCfgs == {c \in AllCfgs : c.ma \in {1, 16} /\ c.dealloc /\ c.shrinks /\ ~c.skew /\ (c.extra = 0 \/ c.hs = 48)}
+
 McCtors == {[k |-> "new", n |-> 0, al |-> 1], [k |-> "unallocated", n |-> 0, al |-> 1]}
 SimCtors == McCtors \cup {[k |-> "with_size", n |-> 200, al |-> 1], [k |-> "with_capacity", n |-> 100, al |-> 32],
                           [k |-> "with_capacity", n |-> 3, al |-> 1]}
@@ -25,6 +28,10 @@ SimLayouts == {[sz |-> s, al |-> a] : s \in {0, 1, 3, 8, 16, 17, 24, 40, 100, 30
               \cup {[sz |-> 16, al |-> 4096], [sz |-> 5000, al |-> 8]}
 
 Wraps == {"none", "wd", "ws", "both"}
+\* workloads of the composite C03 actions (ScopeTwice, ResetLoop)
+L(s, a) == [sz |-> s, al |-> a]
+Workloads == { <<L(24, 8)>>, <<L(100, 1), L(40, 32)>>, <<L(300, 8), L(17, 1), L(300, 64)>>, <<L(3, 1), L(5000, 8)>>,
+               <<L(16, 16), L(16, 16), L(16, 16), L(100, 4)>>, <<L(600, 2), L(600, 2), L(8, 8)>> }
 \* element layouts of the exclusive-borrow collections (u8, [u8; 3], u16, u32, u64, [u64; 3], a 32-byte type aligned to 32)
 SimElems == {[sz |-> 1, al |-> 1], [sz |-> 3, al |-> 1], [sz |-> 2, al |-> 2], [sz |-> 4, al |-> 4], [sz |-> 8, al |-> 8],
              [sz |-> 24, al |-> 8], [sz |-> 32, al |-> 32]}
@@ -58,6 +65,7 @@ Next ==
     \/ PrepCommit
     \/ PrepDrop("return")
     \/ \E id \in LiveIds, at \in {1, 8, 16} : Split(id, at)
+    \/ ScopeTwice(<<L(40, 32), L(24, 4)>>)
 
 Spec == Init /\ [][Next]_vars
 
@@ -99,6 +107,8 @@ SimStep ==
     \/ (CanFail /\ PrepPush(TRUE))
     \/ PrepCommit
     \/ PrepDrop(R({"return", "unwind"}))
+    \/ (\E w \in {R(Workloads)} : ScopeTwice(w))
+    \/ (nops <= 4 /\ \E w \in {R(Workloads)} : ResetLoop(w, 6))
     \/ (LiveIds # {} /\ \E id \in {R(LiveIds)} :
             LET ats == {a \in 1..(blocks[id].sz - 1) : a % blocks[id].al = 0} IN ats # {} /\ \E at \in {R(ats)} : Split(id, at))
     \/ (CanFail /\ Alloc(R(Layouts), FALSE, TRUE))
